@@ -31,6 +31,8 @@ def cells(tier):
             edits = STORY_EDITS
         elif op in ('roReplace-skeleton', 'roStoryAppend-blank-id'):
             edits = ('none', 'item-delete', 'item-insert', 'metadata', 'ro-delete')
+        elif op in ('EAStoryInsert-no-target', 'EAStoryMove-no-target', 'EAStorySwap'):
+            edits = ('none', 'item-insert', 'metadata')
         elif op == 'roStoryReplace-skeleton':
             edits = ('none', 'item-insert', 'story-send', 'metadata')
         elif op == 'roMetadataReplace':
